@@ -533,6 +533,35 @@ func (r *fsmRunner) branch(b *ssa.BasicBlock, iff *ssa.If, p fsmPath, from int64
 	if neg {
 		tIdx, fIdx = 1, 0
 	}
+	// a boolean that remembers an earlier test (`isDigit := c >= '0' && c <= '9'`): on this path the phi has the
+	// value of the edge that was taken
+	for k := 0; k < 6; k++ {
+		ph, ok := cond.(*ssa.Phi)
+		if !ok {
+			break
+		}
+		v, has := p.phis[ph]
+		if !has || v == ssa.Value(ph) {
+			break
+		}
+		cond = v
+		for {
+			u, ok := cond.(*ssa.UnOp)
+			if !ok || u.Op != token.NOT {
+				break
+			}
+			cond = u.X
+			tIdx, fIdx = fIdx, tIdx
+		}
+	}
+	if kc, ok := cond.(*ssa.Const); ok && kc.Value != nil && (kc.Value.String() == "true" || kc.Value.String() == "false") {
+		if kc.Value.String() == "true" {
+			take(tIdx, p)
+		} else {
+			take(fIdx, p)
+		}
+		return
+	}
 	if bo, ok := cond.(*ssa.BinOp); ok {
 		// byte comparisons: split the byte set
 		var bv ssa.Value
